@@ -56,6 +56,8 @@ ASSUMPTIONS = [
     'the read-only property "r" is only addressed as the final segment; attribute names are not methods of builtins',
     'faults are injected with subclasses (raising __delitem__/__delattr__, read-only property); at most one faulty '
     'cell per case',
+    'registries / short-lived classes: as for C11 (path-segment deletions also through a Glommer with its own '
+    'tagged handlers; every 12th case on classes made with type() after other classes were collected)',
     'wildcards: only * (not **), only among the parent segments; matches are deleted in order with Python semantics '
     '(an earlier deletion is visible to a later match); a wildcard case in which some match is neither present nor '
     'missing (fault / inapplicable) is not judged; sets are never enumerated by a wildcard (iteration order)',
